@@ -104,8 +104,10 @@ def check(ctx):
     ctx.inst('R1', sp, 'timer-sites', n_first == 1 and n_retry == 1, 'one arming site for the first send and one for retries (first=%d retry=%d)' % (n_first, n_retry))
     retry = m.func(CF, 'Crazyflie._no_answer_do_retry')
     rc = [c for c in walk_own(retry.node) if method_call(c, 'send_packet')]
-    okr = len(rc) == 1 and [norm(a) for a in rc[0].args] == [retry.params[1]] and \
-        {k.arg: norm(k.value) for k in rc[0].keywords} == {'expected_reply': retry.params[2], 'resend': 'True'}
+    spd = {k_: norm(v_) for k_, v_ in (sp.defaults() if callable(sp.defaults) else sp.defaults).items()}
+    kws = {k.arg: norm(k.value) for k in rc[0].keywords} if len(rc) == 1 else {}
+    kws = {k_: v_ for k_, v_ in kws.items() if k_ in ('expected_reply', 'resend') or spd.get(k_) != v_}      # a keyword that repeats send_packet's own default says nothing
+    okr = len(rc) == 1 and [norm(a) for a in rc[0].args] == [retry.params[1]] and kws == {'expected_reply': retry.params[2], 'resend': 'True'}
     ctx.inst('R1', retry, 'retry-call', okr, 'retry must call send_packet(pk, expected_reply=pattern, resend=True); found %s' % [norm(c) for c in rc])
 
     # ---- R2: transmission on the retry path needs a pending pattern -------------
@@ -213,8 +215,9 @@ def check(ctx):
                 for l in loops:
                     body = gf.loop_body_nodes(l)
                     cs = [b for b in body if b.kind == 'stmt' and any(method_call(c, 'cancel') and norm(c.func.value) == norm(l.ast.target) for c in walk_own(b.ast))]
-                    if len(cs) == 1 and gf.fact_keys_at(cs[0]) == gf.fact_keys_at(l):
-                        okc = True
+                    tv = norm(l.ast.target)
+                    if len(cs) == 1 and (gf.fact_keys_at(cs[0]) - gf.fact_keys_at(l)) <= {fact_key('%s is None' % tv, False), fact_key(tv, True)}:
+                        okc = True              # every timer is cancelled (a None entry, which never occurs, may be skipped)
                 ctx.inst('R4', f, site[0] + '-cancels-all', okc, 'dropping the pattern table must cancel every pending timer first')
     for fname in ('close_link', '_link_error_cb'):
         f = klass.method(fname)
